@@ -247,13 +247,13 @@ func zzSchemaProps(schema any) map[string]headerSchemaProperty { return zzC12Pro
 
 func zzC12Annotate() {
 	leaf := func(h string) headerSchemaProperty {
-		return headerSchemaProperty{Type: "string", XMCPHeader: vJSON(h)}
+		return headerSchemaProperty{XMCPHeader: vJSON(h)}
 	}
 	zzC12Props = map[string]headerSchemaProperty{
 		"p": leaf("Hp"),
-		"o1": {Type: "object", Properties: map[string]headerSchemaProperty{
-			"o2": {Type: "object", Properties: map[string]headerSchemaProperty{
-				"o3": {Type: "object", Properties: map[string]headerSchemaProperty{
+		"o1": {Properties: map[string]headerSchemaProperty{
+			"o2": {Properties: map[string]headerSchemaProperty{
+				"o3": {Properties: map[string]headerSchemaProperty{
 					"a": leaf("Ha"),
 					"b": leaf("Hb"),
 				}},
@@ -408,5 +408,35 @@ func zzC12HeaderName() {
 		}
 	}
 	vAssert((err == nil) == ok, "C12.header-name-accepted-iff-it-is-an-http-token")
+	vReach("end")
+}
+
+
+// H4' (defect D28): the real unmarshalSchemaProperties (marshal the schema, decode the members needed) on schemas whose
+// *other* properties spell "type" in any of the forms JSON Schema allows — a name, an array of names (what schema
+// inference emits for a pointer field), or nothing: the annotated property keeps its binding, and registration-time
+// validation accepts the schema.
+func zzC12SchemaForms() {
+	var noteType any
+	switch vChoice("siblingType", 3) {
+	case 0:
+		noteType = "string"
+	case 1:
+		noteType = []any{"null", "string"}
+	}
+	note := map[string]any{}
+	if noteType != nil {
+		note["type"] = noteType
+	}
+	schema := map[string]any{"type": "object", "properties": map[string]any{
+		"region": map[string]any{"type": "string", "x-mcp-header": "Region"},
+		"note":   note,
+	}}
+	got := extractParamHeaderAnnotations(&Tool{Name: "t", InputSchema: schema})
+	vAssert(len(got) == 1, "C12.schema-forms.annotated-property-keeps-its-binding")
+	if len(got) == 1 {
+		vAssert(got[0].Header == "Region" && len(got[0].Path) == 1 && got[0].Path[0] == "region", "C12.schema-forms.annotated-property-keeps-its-binding")
+	}
+	vAssert(validateParamHeaderAnnotations(&Tool{Name: "t", InputSchema: schema}) == nil, "C12.schema-forms.schema-accepted-at-registration")
 	vReach("end")
 }
